@@ -634,6 +634,20 @@ def r06_8(ctx) -> None:
         raise AnalysisError("BaseKey.check_key_op vanished")
 
 
+def r06_9(ctx) -> None:
+    """R06.9  "the key's declared use must match": check_use refuses exactly when a use is declared and differs from what the operation needs - no other
+    member of the key (key_ops, alg, kid) switches the check off.  Folded on probe JWK views."""
+    from .common import basekey_accessor_verdicts
+    eng = ctx.eng
+    v = basekey_accessor_verdicts(eng)
+    fn = eng.prog.cls("rfc7517.models:BaseKey").methods.get("check_use")
+    if v is None:
+        ctx.ok("R06.9", "check_use (fold inconclusive)", "decided by R06.1 (use gate shape)", nontrivial=False)
+        return
+    bad = [t for c_, t in v if c_ in ("use", "alg")]
+    ctx.check(not bad, "R06.9", fn, fn.node if fn else None, "check_use / check_alg (folded on probe keys)", "; ".join(bad[:2]), "refuses iff declared and different", construct="check_use decision")
+
+
 def audit_key_type(ctx) -> None:
     eng = ctx.eng
     P = eng.prog
@@ -660,5 +674,6 @@ def run(ctx) -> None:
     ctx.guard(r06_4)
     ctx.guard(r06_5)
     ctx.guard(r06_8)
+    ctx.guard(r06_9)
     ctx.guard(audit_key_type)
     ctx.assume("primitives of cryptography fail for keys of the wrong type (backs the audit-only key-type gate)")
